@@ -135,6 +135,25 @@ def isStringBody : Bytes → Bool
     four escapable control characters -/
 def Expressible (s : Bytes) : Prop := ∀ c ∈ s, c ≥ 32 ∨ c = LF ∨ c = TAB ∨ c = CR ∨ c = FF
 
+def isInfix (needle hay : Bytes) : Bool :=
+  (List.range (hay.length + 1)).any fun i => needle.isPrefixOf (hay.drop i)
+
+/-- operand positions of a string literal: `f = lit`, `f != lit`, `f in [lit]`, `f not in [lit]`,
+    `f contains lit`, `f not contains lit` -/
+inductive LitOp | eq | ne | inArr | notInArr | contains | notContains
+  deriving DecidableEq, Repr
+
+/-- documented semantics of `f <op> literal` on a non-null string field, when the literal
+    denotes the byte string `d` -/
+def evalLitOp (op : LitOp) (d field : Bytes) : Bool :=
+  match op with
+  | .eq => field == d
+  | .ne => field != d
+  | .inArr => field == d
+  | .notInArr => field != d
+  | .contains => isInfix d field
+  | .notContains => !isInfix d field
+
 /-- The table the repaired `ParseZqlString` is expected to implement. -/
 def expectedTable : UnescapeTable :=
   { mode := .single, trimQuotes := true,
